@@ -334,10 +334,10 @@ Proof.
 Qed.
 
 (* the second part, for a signer state whose delegate the kind-specific part left alone *)
-Lemma tail_agree lk st t h bh l' m e m2 tot :
+Lemma tail_agree lk st t h bh l' m e m2 tot exp :
   tx_tail lk st t h bh = Ok l' -> get_state lk (addr_of_key (tx_signer t)) = Some st ->
   agree lk m -> total_bal lk < two64 ->
-  wf_tx cfg t -> tx_total cfg t = Some tot -> entry_of_tx cfg t 0 = Ok e ->
+  wf_tx cfg t -> tx_total cfg t = Some tot -> entry_of_tx cfg t exp = Ok e ->
   sim_inputs (match nget m (me_signer e) with
               | Some s => nset m (me_signer e) (mkacct (bal s) (wadd (nonce s) 1) (inc s) (deleg s))
               | None => m end) (me_inputs e) = Ok m2 ->
